@@ -191,10 +191,10 @@ PROPS = {
     "C08": dict(
         module="Evl.Props.C08",
         theorems=["Evl.C08.no_loss_without_retention", "Evl.C08.nothing_invented", "Evl.C08.retention_only_removes", "Evl.C08.step_holds",
-                  "Evl.C08.open_contents", "Evl.C08.append_contents"],
+                  "Evl.C08.open_contents", "Evl.C08.append_contents", "Evl.C08.exactly_once_in_order", "Evl.C08.suffix_under_retention"],
         runs=[FS_RUN], oracle_prefixes=["C08"], models=["M5 FileSink"],
         trusted_base=TB_COMMON,
-        assumptions=FS_ASSUME + ["partial: order across files, the suffix shape under retention, concurrent writers and crash atomicity are decided by the model's construction and the Go oracle on real files, not by a Lean theorem"],
+        assumptions=FS_ASSUME + ["exactly once / order across files (MaxFiles = 0, every history) and the suffix shape under retention (histories without external renames) are Lean theorems over the ordering invariant Ord; partial: concurrent writers are serialised by FileSink.l (C19 facts + concurrent-writer runs) and crash atomicity rests on write(2)/O_APPEND, exercised by the SIGKILL child"],
         rule=FS_RULE,
     ),
     "C15": dict(
